@@ -5,7 +5,23 @@ import sys
 
 if os.environ.get("PYTHONHASHSEED") is None:
     os.environ["PYTHONHASHSEED"] = "0"
-    os.execv(sys.executable, [sys.executable] + sys.argv)
+    os.execv(sys.executable, [sys.executable] + (["-O"] if sys.flags.optimize else []) + sys.argv)
+
+
+def _replay_wants_optimize(argv):
+    """a replay file recorded under python -O (assert statements of the code under test stripped) is replayed so"""
+    if "--replay" in argv and not sys.flags.optimize:
+        try:
+            import json
+            with open(argv[argv.index("--replay") + 1]) as f:
+                return bool(json.load(f).get("python_optimize"))
+        except Exception:
+            return False
+    return False
+
+
+if _replay_wants_optimize(sys.argv):
+    os.execv(sys.executable, [sys.executable, "-O"] + sys.argv)
 
 HERE = os.path.dirname(os.path.dirname(os.path.abspath(__file__)))
 # the simulator always runs the current working tree of /repo (VERIF_REPO is only for evaluating a
@@ -20,5 +36,35 @@ os.environ.setdefault("WAITRESS_VERIF_SIM", "1")
 
 from sim.runner import main  # noqa: E402
 
+# properties whose checks are repeated, for a quarter of the time, with the code under test compiled by python -O:
+# validation written as `assert` statements vanishes there (waitress spells its checks `raise AssertionError`)
+OPTIMIZED_PASS = {"C08"}
+
+
+def _optimized_pass(argv):
+    import subprocess
+    prop = next((a.upper() for a in argv[1:] if not a.startswith("-")), "")
+    if prop not in OPTIMIZED_PASS or sys.flags.optimize or "--replay" in argv or "--selftest-child" in argv \
+            or os.environ.get("VERIF_NO_OPTIMIZED_PASS"):
+        return 0
+    tier = argv[argv.index("--tier") + 1] if "--tier" in argv and argv.index("--tier") + 1 < len(argv) else "quick"
+    budget = None
+    if "--budget" in argv:
+        try:
+            budget = float(argv[argv.index("--budget") + 1])
+        except Exception:
+            budget = None
+    if budget is None:
+        budget = 30.0 if tier != "thorough" else 600.0
+    cmd = [sys.executable, "-O", os.path.abspath(__file__), prop, "--tier", tier, "--budget", "%.1f" % max(5.0, budget / 4),
+           "--no-selftest", "--no-evidence"]
+    print("-- optimized pass (python -O): %s" % " ".join(cmd[2:]), flush=True)
+    out = subprocess.run(cmd, env=dict(os.environ))
+    return out.returncode
+
+
 if __name__ == "__main__":
-    sys.exit(main())
+    rc = main()
+    if rc == 0:
+        rc = _optimized_pass(sys.argv)
+    sys.exit(rc)
